@@ -353,7 +353,7 @@ type c19Doc struct {
 var c19Given = []string{"Ann", "Bob", "Cy", "Dee", "Eve", "Flo", "Gus", "Old", "Élan", "王", "O'Neil", "a&b", "Jo-Ann", "X Æ", "..", "a.b", "New York"}
 var c19Surn = []string{"Smith", "Jones", "Town", "town", "1st", "#hash", "Éclair", "王", "O'Brien", "de la Cruz", "Smith-Jones", "", "K", "İz", "zz top", "&co",
 	"surnames", "9lives", "-dash", "_under", "Ünal", "ß", "Ж", "é", "Zola", "zola", "ǅ"}
-var c19PlaceNames = []string{"Old Town", "old-town", "Oldtown", "Old,Town", "Ann Smith", "Bob Jones", "Paris, France", "Paris,,France", "Sydney, NSW, Australia", ",",
+var c19PlaceNames = []string{"Old Town", "old-town", "Oldtown", "Old,Town", "Ann Smith", "Bob Jones", "Paris, France", "Paris,,France", "Sydney, NSW, Australia", ",", "Paris,,,,France", ", ,Leeds,",
 	"Ünter, Öst", "New York, USA", "A & B, C", "İstanbul", "K", "St. John's", "ann-smith", "Bob  Jones", "a/b", "../x", "OLD TOWN"}
 var c19ReservedPlaces = []string{"places", "statistics", "families", "individuals-a", "Sources"}
 
@@ -567,7 +567,8 @@ func c19RandOpts(r *Rand) c19Opts {
 
 var c19NamePool = []string{"Old Town", "old town", "Old-Town", "OLD,TOWN", "Old  Town", "Oldtown", "Élan Vital", "王小明", "K elvin", "İz mir",
 	"O'Brien", "a/b", "../x", "places", "statistics", "individuals-a", "1st Earl", "#hash", "", "-", "--", "_", "a_b-c", "x\xffy", "\xe2\x84", "Ann Smith",
-	"ann-smith", "ann-smith-1", "Ann Smith-1", "ÀÉÎ", "ß", "ǅ", "ſ", "Å", "a.b", "a&b", "q", "Q", "..", "/", "//", "a\x00b", "S/../x"}
+	"ann-smith", "ann-smith-1", "Ann Smith-1", "ÀÉÎ", "ß", "ǅ", "ſ", "Å", "a.b", "a&b", "q", "Q", "..", "/", "//", "a\x00b", "S/../x",
+	" ,Paris,,,France, ", "a,,,,,b", ",,,,", ", ,", "\u00a0x\u00a0", "\u3000a\u2003", "\ta\v", "Leeds,", ",Leeds", "sources", "families", "surnames", "individuals-symbol", "individuals-z", "s1"}
 
 func c19Name(r *Rand) string {
 	switch r.Intn(8) {
@@ -584,7 +585,7 @@ func c19Name(r *Rand) string {
 	case 1:
 		return r.Pick(c19NamePool) + " " + r.Pick(c19NamePool)
 	case 2:
-		rs := []rune{'K', 'İ', 'Å', 'é', 'É', 'ß', '王', 'ǅ', 'A', 'z', '0', '-', '_', ' ', ',', '.', '/', 0x2028, 0xFFFD, 0x10FFFF}
+		rs := []rune{'K', 'İ', 'Å', 'é', 'É', 'ß', '王', 'ǅ', 'A', 'z', '0', '-', '_', ' ', ',', ',', ' ', '.', '/', 0x2028, 0xFFFD, 0x10FFFF, 0xA0, 0x3000, 0x85, '\t'}
 		n := 1 + r.Intn(5)
 		s := ""
 		for i := 0; i < n; i++ {
@@ -679,8 +680,7 @@ type c19Facts struct {
 	names, surnames []string
 	living          []bool
 	sources         []string
-	pretty          []string          // pretty names of the published places, document order
-	placeKey        map[string]string // pretty -> key
+	values          []string          // PLAC values of the published places, document order
 	req             string            // the c19files request
 }
 
@@ -698,7 +698,7 @@ func c19NamingTies(c *Ctx, text string, o c19Opts) (f *c19Facts) {
 	if err != nil {
 		return nil
 	}
-	f = &c19Facts{placeKey: map[string]string{}}
+	f = &c19Facts{}
 	for _, ind := range doc.Individuals() {
 		f.names = append(f.names, ind.Name().String())
 		f.surnames = append(f.surnames, ind.Name().Surname())
@@ -708,15 +708,7 @@ func c19NamingTies(c *Ctx, text string, o c19Opts) (f *c19Facts) {
 		f.sources = append(f.sources, s.Pointer())
 	}
 	vis := html.NewLivingVisibility(o.Living)
-	for _, v := range c19PlacesInOrder(doc, o.Living) {
-		k, p, ok := c19PlaceEntry(v)
-		if !ok {
-			c.Count("naming:place-probe-failed")
-			continue
-		}
-		f.pretty = append(f.pretty, p)
-		f.placeKey[p] = k
-	}
+	f.values = c19PlacesInOrder(doc, o.Living)
 	pub := html.NewPublisher(doc, o.real())
 	places := pub.Places()
 	var pkeys, pents []string
@@ -724,27 +716,28 @@ func c19NamingTies(c *Ctx, text string, o c19Opts) (f *c19Facts) {
 		pkeys = append(pkeys, k)
 	}
 	sort.Strings(pkeys)
-	ambiguous := false
 	for _, k := range pkeys {
 		pents = append(pents, k, places[k].PrettyName)
-		c.Tie("c19san "+hexs(places[k].PrettyName), hexs(k))
 	}
-	seenKey := map[string]string{}
-	for _, p := range f.pretty {
-		if q, ok := seenKey[f.placeKey[p]]; ok && q != p {
-			ambiguous = true
+	if len(pkeys) < len(f.values) {
+		distinct := map[string]bool{}
+		for _, v := range f.values {
+			distinct[v] = true
 		}
-		seenKey[f.placeKey[p]] = p
+		if len(pkeys) < len(distinct) {
+			c.Count("naming:places-sharing-a-key")
+		}
 	}
-	if ambiguous {
-		c.Count("naming:places-sharing-a-key")
-	}
-	c.Tie("c19pents "+c19JoinHexs(f.pretty), c19JoinHexs(pents))
-	for i, p := range f.pretty {
+	c.Tie("c19pents "+c19JoinHexs(f.sources)+" "+c19JoinHexs(f.values), c19JoinHexs(pents))
+	for i, v := range f.values {
 		if i >= 4 {
 			break
 		}
-		c.Tie("c19pplace "+hexs(p)+" "+c19JoinHexs(f.pretty), hexs(html.PagePlace(p, places)))
+		// the pretty name of the value through the real code (one-place document), then the link
+		if _, p, ok := c19PlaceEntry(v); ok {
+			c.Tie("c19pretty "+hexs(v), hexs(p))
+			c.Tie("c19pplace "+hexs(p)+" "+c19JoinHexs(f.sources)+" "+c19JoinHexs(f.values), hexs(html.PagePlace(p, places)))
+		}
 	}
 	// GetIndividuals with the nil map and with the populated one
 	for pass := 0; pass < 2; pass++ {
@@ -764,20 +757,19 @@ func c19NamingTies(c *Ctx, text string, o c19Opts) (f *c19Facts) {
 		for _, ind := range doc.Individuals() {
 			obs = append(obs, byInd[ind])
 		}
-		c.Tie("c19keys "+c19JoinHexs(pk)+" "+c19JoinHexs(f.names), c19JoinHexs(obs))
+		c.Tie("c19keys "+c19JoinHexs(pk)+" "+c19JoinHexs(f.sources)+" "+c19JoinHexs(f.names), c19JoinHexs(obs))
 		c.Eval()
 		for i, ind := range doc.Individuals() {
-			if i >= 3 {
+			if i >= 6 {
 				break
 			}
-			hidden := f.living[i] && o.Living != "show"
 			var got string
 			if pass == 0 {
 				got = html.PageIndividual(doc, ind, vis, nil)
 			} else {
 				got = html.PageIndividual(doc, ind, vis, places)
 			}
-			c.Tie(fmt.Sprintf("c19pind %s %d %s %s", bit(hidden), i, c19JoinHexs(pk), c19JoinHexs(f.names)), hexs(got))
+			c.Tie(fmt.Sprintf("c19pind %d %s %s %s %s", i, c19Hidden(f.living, o.Living), c19JoinHexs(pk), c19JoinHexs(f.sources), c19JoinHexs(f.names)), hexs(got))
 		}
 	}
 	for _, sn := range doc.Sources() {
@@ -810,7 +802,7 @@ func c19NamingTies(c *Ctx, text string, o c19Opts) (f *c19Facts) {
 		}
 	}
 	f.req = fmt.Sprintf("c19files %s %s %s %s %s %s", o.bits(), hexs(letters), c19Hidden(f.living, o.Living),
-		c19JoinHexs(f.names), c19JoinHexs(f.pretty), c19JoinHexs(f.sources))
+		c19JoinHexs(f.names), c19JoinHexs(f.values), c19JoinHexs(f.sources))
 	return f
 }
 
@@ -1133,13 +1125,14 @@ func init() {
 				ind.AddName(s)
 				ns := ind.Name().String()
 				for k := range html.GetIndividuals(doc, nil) {
-					c.Tie("c19san "+hexs(ns), hexs(k))
+					c.Tie("c19keys 0 0 1 "+hexs(ns), "1 "+hexs(k))
 				}
 				c.Eval()
 				c.Count("san:individual")
 				if i%4 == 0 && !strings.ContainsAny(s, "\n\r") {
 					if k, p, ok := c19PlaceEntry(s); ok {
-						c.Tie("c19san "+hexs(p), hexs(k))
+						c.Tie("c19pents 0 1 "+hexs(s), c19JoinHexs([]string{k, p}))
+						c.Tie("c19pretty "+hexs(s), hexs(p))
 						c.Count("san:place")
 					}
 				}
@@ -1167,7 +1160,7 @@ func init() {
 		}
 
 		// ---- documents
-		nSites := c.N(400, 5000)
+		nSites := c.N(160, 5000)
 		if v, err := strconv.Atoi(os.Getenv("C19_SITES")); err == nil && v > 0 {
 			nSites = v // development knob
 		}
@@ -1246,6 +1239,9 @@ func init() {
 					expect[f.Name] = f.Sha
 				}
 				for ji, jobs := range allJobs {
+				if c.Quick() && ji != i%4 && ji != (i+2)%4 {
+					continue // quick tier: two of the four job counts per site, all four over any two sites in a row
+				}
 					variants = append(variants, &variant{site: s, what: fmt.Sprintf("rerun jobs=%d", jobs),
 						job: &c19Job{Gedcom: g, Opts: s.opts, Jobs: jobs, Repeat: 2, Expect: expect},
 						env: []string{"GOMAXPROCS=" + strconv.Itoa([]int{1, 2, 4, 8}[(i+ji)%4])}})
